@@ -187,12 +187,26 @@ BENIGN = ("float-div-by-zero", "uninitialised-read", "sqrt-of-negative")      # 
 SEPARATE = ("float-to-int-out-of-range",)
 
 # ------------------------------------------------------------------------------------------------ running one variant
-def run_variant(mods, k, vname, mk):
+def uses_openmp(mod, fn, seen=None):
+    """does the kernel (or a function it calls) fork an OpenMP team?"""
+    seen = seen if seen is not None else set()
+    if fn in seen or fn not in mod.funcs: return False
+    seen.add(fn)
+    for blk in mod.funcs[fn].blocks.values():
+        for ins in blk:
+            if ins.op == "call":
+                if "@__kmpc_fork_call" in ins.text: return True
+                m = re.search(r"@([\w.$]+)\(", ins.text)
+                if m and uses_openmp(mod, m.group(1), seen): return True
+    return False
+
+def run_variant(mods, k, vname, mk, team=None):
     mod = mods[k["src"]]
     def run():
         llsym.MULMODE[0] = k["mul"]; symcore.RNE_MODE[0] = "fresh"
         try:
             it = Interp(mod, max_steps=400000); spec = mk()
+            if team: it.omp_mode = "team"; it.team_size = team
             args, objs = build_args(it, spec)
             aborted = None
             try: ret = it.call(k["fn"], args)
@@ -237,9 +251,10 @@ def run_variant(mods, k, vname, mk):
 
 _VJ = {}
 def _vjob(i):
-    mods, k, vname, mk = _VJ[i]
+    mods, k, vname, mk, team = _VJ[i]
     common.STATS.__init__(); import time; t0 = time.time()
-    try: outs = run_variant(mods, k, vname, mk); err = None
+    try: outs = run_variant(mods, k, vname, mk, team); err = None
+    except llsym.TeamBarrier as e: outs = []; err = "team-barrier"
     except NotImplementedError as e: outs = []; err = "unsupported: %s" % e
     except symcore.Inconclusive as e: outs = []; err = "inconclusive: %s" % e
     st = common.STATS.asdict(); st["wall"] = round(time.time() - t0, 1)
@@ -273,7 +288,7 @@ def c_driver(mod, k, model):
     lines.append("  %s(%s);" % (k["fn"], ", ".join(call))); lines.append("  return 0;\n}")
     return "\n".join(lines)
 
-def sanitizer_replay(mod, k, model, uninit=False):
+def sanitizer_replay(mod, k, model, uninit=False, threads=None):
     d = common.scratch("verif_c20_"); open(os.path.join(d, "drv.c"), "w").write(c_driver(mod, k, model))
     srcs = [os.path.join(common.REPO, "src", n + ".c") for n in common.C_FILES] + [os.path.join(d, "drv.c")]
     exe = os.path.join(d, "drv")
@@ -283,6 +298,14 @@ def sanitizer_replay(mod, k, model, uninit=False):
         if r.returncode: return None, "driver build failed: " + r.stderr[-300:]
         r = subprocess.run(["valgrind", "-q", "--error-exitcode=9", "--track-origins=no", exe], capture_output=True, text=True, timeout=300, env=dict(os.environ, OMP_NUM_THREADS="1"))
         return (r.returncode == 9), r.stderr[-400:]
+    if threads:      # an event of the team model: the real OpenMP build (gcc + libgomp, ASan/UBSan) with that many threads
+        cmd = ["gcc", "-O0", "-g", "-fsanitize=address,undefined", "-fno-sanitize-recover=all", "-fopenmp", "-DNDEBUG", "-I" + os.path.join(common.REPO, "src")] + srcs + ["-o", exe, "-lm"]
+        r = subprocess.run(cmd, capture_output=True, text=True)
+        if r.returncode: return None, "driver build failed: " + r.stderr[-300:]
+        r = subprocess.run([exe], capture_output=True, text=True, timeout=120, env=dict(os.environ, ASAN_OPTIONS="detect_leaks=0", OMP_NUM_THREADS=str(threads), OMP_DYNAMIC="false"))
+        hit = r.returncode != 0 and ("AddressSanitizer" in r.stderr or "runtime error" in r.stderr or r.returncode < 0)
+        msg = [l for l in r.stderr.split("\n") if "ERROR" in l or "runtime error" in l or "SUMMARY" in l]
+        return hit, ("OMP_NUM_THREADS=%d: " % threads) + " | ".join(msg[:3])[:400]
     cmd = ["clang-14", "-O0", "-g", "-fsanitize=address,undefined", "-fno-sanitize-recover=all", "-fopenmp", "-DNDEBUG", "-I" + os.path.join(common.VERIF, "stubs") if False else "-I" + os.path.join(common.REPO, "src")] + srcs + ["-o", exe, "-lm"]
     r = subprocess.run(cmd, capture_output=True, text=True)
     if r.returncode:
@@ -305,6 +328,11 @@ def main():
         if n in ("connectedpixels", "sparse_image"): m.load(ir["blobs"])
         mods[n] = m
     K = kernels(thorough)
+    iro = common.build_ir(names, openmp=True); modso = {}      # the same sources compiled with -fopenmp: outlined parallel regions, runtime calls
+    for n in names:
+        m = Module(); m.load(iro[n])
+        if n in ("connectedpixels", "sparse_image"): m.load(iro["blobs"])
+        modso[n] = m
     exported = set(re.findall(r"^\s*(?:function|subroutine)\s+(\w+)", open(os.path.join(common.REPO, "src", "_cImageD11.pyf")).read(), re.M))
     covered = set(k["fn"] for k in K)
     ck.extra["exported_kernels"] = len(exported); ck.extra["kernels_driven"] = sorted(covered & exported)
@@ -313,17 +341,30 @@ def main():
     ck.bound("boundary shapes per kernel: images 2x2, 2x3, 3x2 (3x3 thorough); sparse patterns nnz 0..3 (4 thorough) on a 3x3 grid incl. empty rows and first/last row and column; 0..2 peaks / labels; nhist 1..3",
              "contents symbolic inside each kernel's documented preconditions (listed per kernel in 'notes'); exact-size objects as _cImageD11.pyf hands them to C",
              "not driven: %s" % ", ".join(ck.extra["kernels_not_driven"]),
-             "floating-point rounding and NaN/Inf inputs are outside the real-arithmetic model; allocation never fails; OpenMP regions run with sequential semantics here (races: C07, C11, C13)")
+             "floating-point rounding and NaN/Inf inputs are outside the real-arithmetic model (except array_histogram, IEEE mode); allocation never fails",
+             "OpenMP: every kernel with a parallel region is also run with teams of 2 and 3 (thorough: 4) threads, each member executing the region to completion with its own thread number and its static share of the worksharing loops (memory safety per thread; races are C07, C11, C13); regions containing barriers are refused by this model")
     ck.assume("signed overflow is reported although the shipped flags contain -fno-strict-overflow", "float-to-int conversions out of range are reported in a class of their own (not part of -fsanitize=undefined in clang 14)",
               "an aborted path (exit() in a bounds check the kernel itself performs) counts as an event")
     _VJ.clear(); idx = []
+    teams = (2, 3) if not thorough else (2, 3, 4)
+    nteam = 0; barrier_kernels = set()
     for k in K:
         for vname, mk in k["variants"]:
-            _VJ[len(idx)] = (mods, k, vname, mk); idx.append((k, vname))
+            _VJ[len(idx)] = (mods, k, vname, mk, None); idx.append((k, vname))
+        if uses_openmp(modso[k["src"]], k["fn"]):
+            # the same shapes with a team of several threads: each member runs the parallel region to completion with its own thread number
+            vs = [v for v in k["variants"] if "IEEE" not in v[0]]
+            for vname, mk in ([vs[0], vs[-1]] if len(vs) > 1 and not thorough else vs):
+                for nt in teams:
+                    _VJ[len(idx)] = (modso, k, vname, mk, nt); idx.append((k, "%s, team of %d threads" % (vname, nt))); nteam += 1
     res = common.pmap(_vjob, list(range(len(idx))))
     nviol = 0; sep = []
     for (k, vname), (outs, err, st) in zip(idx, res):
         ck.merge_stats(st); name = "%s[%s]" % (k["fn"], vname); ck.extra.setdefault("slowest", []).append((st.get("wall", 0), name, len(outs)))
+        if err == "team-barrier":      # parallel region with barriers: the run-to-completion team model does not apply (C13 explores its schedules)
+            barrier_kernels.add(k["fn"]); continue
+        if err and "team of" in vname and err.startswith("unsupported"):
+            ck.extra.setdefault("team_variants_unsupported", []).append("%s: %s" % (name, err[:120])); continue
         if err: ck.undecided(name, err); continue
         ck.path(None, n=len(outs))
         for n_ in range(min(len(outs), 40)): ck.path("%s:%d" % (name, n_), n=0)
@@ -341,13 +382,15 @@ def main():
             uninit = e[0].startswith("uninitialised") or e[0] == "undefined-output"
             if e[0] == "undefined-output":
                 ck.violation("%s leaves promised output cells undefined: %s" % (name, e[1]), "%s.c:%s:undefined-output" % (k["src"], k["fn"]), dict(model=o["model"])); reported = True; nviol += 1; continue
-            hit, msg = sanitizer_replay(mods[k["src"]], k, o["model"], uninit)
+            mt = re.search(r"team of (\d+) threads", vname)
+            hit, msg = sanitizer_replay(mods[k["src"]], k, o["model"], uninit, threads=int(mt.group(1)) if mt else None)
             if hit:
                 ck.violation("%s: %s %s (source line %s); sanitizer replay: %s" % (name, e[0], e[1], e[2], msg), "%s.c:%s:%s" % (k["src"], k["fn"], e[0]), dict(model=o["model"], event=list(map(str, e))))
                 reported = True; nviol += 1
             elif hit is None: ck.not_reproduced("%s: %s (%s)" % (name, e, msg))
             else: ck.not_reproduced("%s: model event %s at line %s not confirmed by the sanitizer run (%s)" % (name, e[0], e[2], msg))
         ck.sample(dict(kernel=name, paths=len(outs), events=[str(e) for o, e in evs[:3]]))
+    ck.extra["team_variants"] = nteam; ck.extra["team_model_refused_for"] = sorted(barrier_kernels)
     ck.extra["slowest"] = sorted(ck.extra.get("slowest", []), reverse=True)[:12]
     ck.extra["float_to_int_out_of_range"] = sorted(set("%s line %s" % (n, e[2]) for n, e in sep))[:20]
     ck.finish("Every exported kernel in the table is executed from clang IR on exactly-sized checked memory objects with symbolic contents inside its "
